@@ -40,7 +40,7 @@ SHARDS = {"quick": 16, "thorough": 900}
 EXHAUSTIVE = {"quick": True, "thorough": True}
 
 CFG = {"input": "UNMATCHED_INSTANCE", "matcher": {"kind": "naive", "metric": "IOU", "thr": 0.5}, "metrics": ["DSC", "IOU", "RVD"], "global": ["DSC"]}
-NAMES = ["s0", "s1", "s2", "s3", "s4", "s5", "subject_name", "s10", "s", "s1 ", "case"]  # some are substrings / prefixes of others
+NAMES = ["s0", "s1", "s2", "s3", "s4", "s5", "subject_name", "s10", "s", "s1 ", "case", "pet_s1", "x s0", "0"]  # some are substrings / prefixes / suffixes of others
 STATES = ["absent", "empty", "header_only", "header_rows"]
 VARIANTS = ["plain", "graceful", "threads", "noext", "depth2"]
 
